@@ -449,7 +449,8 @@ def mask_vals(f, maskdef, metakeys=_metakeys):
     mtype = maskdef.split(',')[0]
     mval = ','.join(maskdef.split(',')[1:])
     if mtype == 'where':
-        maskexpr = 'np.ma.masked_where(mask, var[:].view(np.ndarray))'
+        # var[:], not its plain-array view: cells that are already masked stay
+        maskexpr = 'np.ma.masked_where(mask, var[:])'
         # the condition is an expression over the variables of the file
         mask = eval(mval, None, dict(f.variables))  # noqa: F841
     else:
